@@ -416,6 +416,107 @@ def read_state_layout(src, funcs):
     return size, slots, fmt, args
 
 
+def statements_around(src, start, end, fa, fb):
+    """The statement just before `start` and just after `end` (positions of one
+    statement, `end` at its ';') inside function body (fa, fb), normalised."""
+    i = start - 1
+    while i > fa and src[i] not in ";{}":
+        i -= 1
+    j = i - 1
+    while j > fa and src[j] not in ";{}":
+        j -= 1
+    before = " ".join(src[j + 1:i + 1].split()) if src[i] == ";" else ""
+    k = src.find(";", end + 1)
+    after = " ".join(src[end + 1:k + 1].split()) if 0 <= k < fb else ""
+    return before, after
+
+
+def read_stolen_references(src, funcs):
+    """Every `PyTuple_SET_ITEM` / `PyList_SET_ITEM` (which STEAL a reference):
+    (function, stored expression, how the reference is owned).  `call`: the
+    argument is a call returning a new reference; `incref`: a variable with
+    `Py_INCREF(var);` as the statement just before or just after; `owned`: a
+    variable last assigned from a call returning a new reference;
+    `BORROWED`: none of these - the container would steal a borrowed reference."""
+    borrowed_calls = ("PyTuple_GET_ITEM", "PyList_GET_ITEM", "PyDict_GetItem", "PyDict_GetItemString",
+                      "PyTuple_GetItem", "PyList_GetItem", "PyWeakref_GET_OBJECT", "dict_getitem")
+    rows = []
+    for m in re.finditer(r"\bPy(Tuple|List)_SET_ITEM\s*\(", src):
+        e = matching(src, m.end() - 1, "(", ")")
+        semi = src.find(";", e)
+        if not re.match(r"\s*;", src[e + 1:semi + 1]):
+            raise Shape("SET_ITEM at offset %d is not a statement" % m.start())
+        inner = src[m.end():e]
+        # split the three arguments at top-level commas
+        depth, parts, cur = 0, [], ""
+        for ch in inner:
+            if ch in "([":
+                depth += 1
+            elif ch in ")]":
+                depth -= 1
+            if ch == "," and depth == 0:
+                parts.append(cur)
+                cur = ""
+            else:
+                cur += ch
+        parts.append(cur)
+        if len(parts) != 3:
+            raise Shape("SET_ITEM with %d arguments" % len(parts))
+        arg = " ".join(parts[2].split())
+        arg_nocast = re.sub(r"^\(\s*\w+\s*\*?\s*\)\s*", "", arg)
+        fname, fa, fb = enclosing(funcs, m.start())
+        mc = re.match(r"^(\w+)\s*\(", arg_nocast)
+        if mc:
+            kind = "BORROWED" if mc.group(1) in borrowed_calls else "call"
+        elif re.match(r"^\w+$", arg_nocast):
+            var = arg_nocast
+            before, after = statements_around(src, m.start(), semi, fa, fb)
+            inc = "Py_INCREF(%s);" % var
+            if before.replace(" ", "") == inc or after.replace(" ", "") == inc:
+                kind = "incref"
+            else:
+                # last assignment to the variable before the site, in this function
+                asg = list(re.finditer(r"\b%s\s*=(?!=)\s*([^;]+);" % re.escape(var), src[fa:m.start()]))
+                if not asg:
+                    raise Shape("%s: no assignment to %s before SET_ITEM" % (fname, var))
+                rhs = " ".join(asg[-1].group(1).split())
+                rhs = re.sub(r"^\(\s*\w+\s*\*?\s*\)\s*", "", rhs)
+                mr = re.match(r"^([\w>.-]+)\s*\(", rhs)
+                if mr and mr.group(1).split("->")[-1] not in borrowed_calls:
+                    kind = "owned"
+                else:
+                    kind = "BORROWED"
+        else:
+            raise Shape("%s: unknown stored expression %r" % (fname, arg))
+        rows.append((fname, arg[:60], kind))
+    if not rows:
+        raise Shape("no SET_ITEM found")
+    return rows
+
+
+def read_deallocs(src, funcs):
+    """(function, function called by the first statement) of every tp_dealloc of the file; the types of
+    this file all have Py_TPFLAGS_HAVE_GC (checked)."""
+    slots = re.findall(r"\(\s*destructor\s*\)\s*(\w+)\s*,", src)
+    if len(slots) < 2:
+        raise Shape("tp_dealloc slots not found")
+    ntypes = len(re.findall(r"\bPyTypeObject\s+\w+\s*=\s*\{", src))
+    if len(re.findall(r"Py_TPFLAGS_HAVE_GC", src)) < len(set(slots)) or ntypes < len(set(slots)):
+        raise Shape("a type with a tp_dealloc has no Py_TPFLAGS_HAVE_GC - update the translator")
+    byname = dict((n, (a, b)) for n, a, b in reversed(funcs))
+    rows = []
+    for f in sorted(set(slots)):
+        if f not in byname:
+            raise Shape("tp_dealloc %s not found" % f)
+        a, b = byname[f]
+        body = src[a + 1:b]
+        body = re.sub(r"^[ \t]*#.*$", "", body, flags=re.M)   # preprocessor lines
+        first = " ".join(body.split(";")[0].split())
+        mc = re.match(r"^(\w+)\s*\(", first)
+        rows.append((f, mc.group(1) if mc else first[:80]))
+    return rows
+
+
 def read_complex_cases(src, funcs, consts):
     for n, a, b in funcs:
         if n == "validate_trait_complex":
@@ -457,6 +558,8 @@ def emit(traits_dir):
     dv_guard, dv_checked, dv_cases, dv_tuple = read_default_value(src, funcs, consts)
     complex_cases = read_complex_cases(src, funcs, consts)
     st_size, st_slots, st_fmt, st_args = read_state_layout(src, funcs)
+    stolen = read_stolen_references(src, funcs)
+    deallocs = read_deallocs(src, funcs)
 
     L = ["/- GENERATED by harness/translate/ctables.py from traits/ctraits.c of the working tree - do not edit. -/",
          "namespace TraitsVerif.Generated.CTables", ""]
@@ -521,6 +624,17 @@ def emit(traits_dir):
     L.append("")
     L.append("/-- `case` labels of `validate_trait_complex`. -/")
     L.append("def validateComplexCases : List Nat := %s" % lean_nats(complex_cases))
+    L.append("")
+    L.append("/-- Every `PyTuple_SET_ITEM` / `PyList_SET_ITEM` (they steal a reference): (function, stored")
+    L.append("expression, ownership): `call` new reference from a call, `incref` variable with an adjacent")
+    L.append("`Py_INCREF`, `owned` variable last assigned from a call, `BORROWED` none of these. -/")
+    L.append("def stolenReferences : List (String × String × String) := [")
+    L.append(",\n".join("  (%s, %s, %s)" % (q(a), q(b.replace('"', "'")), q(c)) for a, b, c in stolen))
+    L.append("]")
+    L.append("/-- (function, function called by its first statement) of every `tp_dealloc` (all types of the file are GC types). -/")
+    L.append("def deallocFirstStatement : List (String × String) := [")
+    L.append(",\n".join("  (%s, %s)" % (q(a), q(b.replace('"', "'"))) for a, b in deallocs))
+    L.append("]")
     L.append("")
     L.append("/-! `#define` constants. -/")
     L.append("def constants : List (String × Nat) := [")
